@@ -2,9 +2,11 @@
 
 Pipeline (B, code -> spec, plus MC of the seeding idioms):
 
-  1. MC run of spec/C13_Seeding.tla (MODE=mc): the seeding idioms found in msdm (private generator
-     from the seed, `seed or <global draw>`, generator threaded through a roll-out, a roll-out with
-     one unthreaded draw, seed derived from the builtin hash of an object) are explored over all
+  1. MC run of spec/C13_Seeding.tla (MODE=mc): the sound seeding idioms the code follows (private
+     generator from the seed, generator threaded through a roll-out, per-object seed from a stable
+     text rendering) and the defective ones msdm used before its repairs (`seed or <global draw>`,
+     a roll-out with one unthreaded draw, seed derived from the builtin / identity hash of an
+     object; kept as model-level demonstrations, no component is mapped to them) are explored over all
      seeds (0 included), label kinds, hash seeds and prior states of the global generators; TLC
      decides which (idiom, input shape) pairs can break determinism / isolation.  The table of
      predictions is emitted and cross-checked against an independent Python evaluation.
@@ -434,7 +436,10 @@ def c_ga(prob, par, seed):
 
 def _options(prob, kind):
     """Options on `prob`: kind "named" (PlanToSubgoalOption with string names, hash = hash(name)),
-    "unnamed" (name None), "plain" (Option subclass that keeps the default identity hash)."""
+    "unnamed" (name None), "plain" (Option subclass that keeps the default identity hash but has a
+    str name, like SimpleOption in msdm's tests; obj_seed renders it as ClassName:name).  An option
+    with identity hash and no str name is not a reproducible input by construction of the user's
+    class and is outside the statement: no such case is generated."""
     from msdm.core.semimdp.option import Option, PlanToSubgoalOption
     from msdm.core.mdp.policy import FunctionalPolicy
     from msdm.core.distributions import DictDistribution
@@ -451,7 +456,7 @@ def _options(prob, kind):
         def __init__(self, name, terminal):
             self.name = name
             self.terminal = terminal
-            self.max_steps = 500
+            self.max_steps = 20000
             self.policy = FunctionalPolicy(lambda s: DictDistribution.uniform(list(mdp.actions(s))))
 
         def is_initial(self, s):
@@ -476,7 +481,7 @@ def _options(prob, kind):
         class UnnamedWander(PlanToSubgoalOption):       # name None, hash = hash(None); random walk
             policy = FunctionalPolicy(lambda s: DictDistribution.uniform(list(mdp.actions(s))))
         kw = dict(mdp=mdp, initial_states=states, subgoals=[subgoal] + absorbing,
-                  planner=ValueIteration(max_iterations=200), include_mdp_absorbing_states=True, max_steps=500)
+                  planner=ValueIteration(max_iterations=200), include_mdp_absorbing_states=True, max_steps=20000)
         opts = [PlanToSubgoalOption(**kw), UnnamedWander(**kw)]
     elif kind == "intname":
         opts = [NamedWander(7, [subgoal] + absorbing)]
@@ -590,13 +595,13 @@ COMPONENTS = {
     "BreadthFirstSearch": (c_bfs, "BreadthFirstSearch.plan_on", "private"),
     "TD": (c_td, "TemporalDifferenceLearning.train_on", "private"),
     "RMAX": (c_rmax, "RMAX.train_on", "private"),
-    "BPI": (c_bpi, "FSCBoundedPolicyIteration", "seed_or_draw"),
-    "GA": (c_ga, "FSCGradientAscent", "seed_or_draw"),
-    "SemiMDP": (c_semimdp, "semimdp.obj_seed", "obj_hash"),
+    "BPI": (c_bpi, "FSCBoundedPolicyIteration", "private"),
+    "GA": (c_ga, "FSCGradientAscent", "private"),
+    "SemiMDP": (c_semimdp, "semimdp.obj_seed", "stable_obj_seed"),
     "Implicit": (c_implicit, "ImplicitDistribution", "private"),
     "Rollout": (c_rollout, "Policy.run_on", "threaded"),
     "Evaluate": (c_evaluate, "Policy.evaluate_on", "threaded"),
-    "POMDPRollout": (c_pomdp_rollout, "POMDPPolicy.run_on", "unthreaded_first_draw"),
+    "POMDPRollout": (c_pomdp_rollout, "POMDPPolicy.run_on", "threaded"),
 }
 
 
@@ -654,14 +659,10 @@ def case_meta(c):
     _, site, idiom = COMPONENTS[c["comp"]]
     m = meta(c["prob"])
     lk, shape, multi = m["lk"], m["shape"], m["multi"]
-    if c["comp"] == "BPI":
-        idiom = "seed_or_draw_numpy"
-    if c["comp"] == "GA":
-        idiom = "seed_or_draw_torch"
     if c["comp"] == "SemiMDP":
         kind = c["par"]["options"]
-        if kind == "plain":
-            idiom, shape = "obj_identity", shape + "+identity-hash-option"
+        if kind == "plain":         # identity hash, but a str name: covered by the stable rendering
+            shape = shape + "+identity-hash-named-option"
         elif kind == "named":
             lk, shape = "str", shape + "+str-option-name"
         elif kind == "intname":
@@ -908,7 +909,7 @@ def judge(ctx, plan, traces, summaries):
 # ---------------------------------------------------------------------------------------------
 # MC of the seeding idioms
 # ---------------------------------------------------------------------------------------------
-IDIOMS = ["private", "threaded", "seed_or_draw_numpy", "seed_or_draw_torch", "unthreaded_first_draw",
+IDIOMS = ["private", "threaded", "stable_obj_seed", "seed_or_draw_numpy", "seed_or_draw_torch", "unthreaded_first_draw",
           "obj_hash", "obj_identity"]
 MC_CFG = "INIT Init\nNEXT Next\nCHECK_DEADLOCK FALSE\nINVARIANT Emit\nINVARIANT PredictionSound\n"
 PROP_CFG = ("INIT Init\nNEXT Next\nCHECK_DEADLOCK FALSE\nINVARIANT Isolated\nINVARIANT Repeatable\n"
@@ -924,6 +925,8 @@ def py_idiom_table():
         post = dict(pre)
         if idiom in ("private", "threaded"):
             return ("seed", seed), post
+        if idiom == "stable_obj_seed":
+            return ("derived from text", seed), post
         if idiom.startswith("seed_or_draw"):
             g = idiom.rsplit("_", 1)[1]
             used = seed or None
